@@ -366,3 +366,16 @@ func (c *Ctx) isControlFrameHandler(fn *ssa.Function) bool {
 	}
 	return false
 }
+
+// inRegion: instruction `in` belongs to the region `blocks` of some function, or to a
+// function called from it (the interprocedural search only gets into other functions by
+// descending from the region, so anything outside the region's own function is inside).
+func inRegion(blocks map[*ssa.BasicBlock]bool, in ssa.Instruction) bool {
+	if blocks[in.Block()] {
+		return true
+	}
+	for b := range blocks {
+		return in.Parent() != b.Parent()
+	}
+	return false
+}
